@@ -42,13 +42,6 @@ func judgeSeq(c SeqCase) (vs []evid.Violation) {
 		}
 		k := kept{out: out, payload: sp.Bytes(), snapOut: append([]byte{}, out...), snapPayl: append([]byte{}, sp.Bytes()...)}
 		keep = append(keep, k)
-		// the caller reuses its data buffer after the call: what was returned must not change
-		for j := range tx.Data {
-			tx.Data[j] ^= 0xff
-		}
-		if !bytes.Equal(out, k.snapOut) || !bytes.Equal(sp.Bytes(), k.snapPayl) {
-			vs = append(vs, evid.V("result-independent-of-caller-buffer", "step %d: the returned bytes changed when the caller modified its own data buffer after signing", i))
-		}
 	}
 	for i, k := range keep {
 		if !bytes.Equal(k.out, k.snapOut) {
